@@ -1,8 +1,13 @@
 ----------------------------- MODULE MCGcEnum -----------------------------
-(* Enumerates every request graph of the quick GcTraversal configuration with the set the model
-   says is handled (= kept) when the traversal ends: one REPLAY record per (graph, roots). *)
+(* Enumerates every request graph of a GcTraversal configuration with the set the model says is
+   handled (= kept) when the traversal ends, and what would be reported under the two error
+   selection rules: one REPLAY record per terminal state. *)
 EXTENDS MCGcTraversal, Json
 
-Rec == [succ |-> [i \in Items |-> succ[i]], roots |-> [g \in Groups |-> roots[g]], done |-> done]
+Rank(i) == CASE i = "a" -> 1 [] i = "b" -> 2 [] i = "c" -> 3 [] i = "d" -> 4
+MinErr == IF errors = <<>> THEN "none"
+          ELSE CHOOSE e \in ErrSet : \A f \in ErrSet : Rank(e) <= Rank(f)
+Rec == [succ |-> [i \in Items |-> succ[i]], roots |-> [g \in Groups |-> roots[g]], done |-> done,
+        soft |-> soft, last |-> ReportedLast, min |-> MinErr]
 EmitReplay == scopeEnd => PrintT(<<"REPLAY", ToJson(Rec)>>)
 =============================================================================
